@@ -1,6 +1,6 @@
 """Calibrates data/c06_envelope.txt on the current tree:  python3 -m vmon.calib06 [ncases] [seeds...]
 Envelope[key] = (minimum SNR observed for key over the campaign) - 6 dB, then forced non-decreasing in the quality index
-within each (rate band, channel class).  Keys: snr|b<band>|q<qi>|c<chclass> and snr|b<band>|abr<k>|c<chclass>."""
+within each (rate band, channel class).  Keys: snr|<signal>|b<band>|q<qi>|c<chclass> and snr|<signal>|b<band>|abr<k>|c<chclass>."""
 import os, sys, re
 from . import build, run, props
 
@@ -24,13 +24,13 @@ def main(argv):
     # monotone in quality index
     groups = {}
     for k in env:
-        m = re.match(r"snr\|b(\d)\|q(\d)\|c(\d)$", k)
+        m = re.match(r"snr\|(\w+)\|b(\d)\|q(\d)\|c(\d)$", k)
         if m:
-            groups.setdefault((m.group(1), m.group(3)), []).append(int(m.group(2)))
-    for (b, c), qs in groups.items():
+            groups.setdefault((m.group(1), m.group(2), m.group(4)), []).append(int(m.group(3)))
+    for (sg, b, c), qs in groups.items():
         qs.sort()
         for i in range(len(qs) - 2, -1, -1):   # lower quality bound must not exceed the next higher one
-            lo, hi = "snr|b%s|q%d|c%s" % (b, qs[i], c), "snr|b%s|q%d|c%s" % (b, qs[i + 1], c)
+            lo, hi = "snr|%s|b%s|q%d|c%s" % (sg, b, qs[i], c), "snr|%s|b%s|q%d|c%s" % (sg, b, qs[i + 1], c)
             if env[lo] > env[hi]:
                 env[lo] = env[hi]
     out = os.path.join(build.VERIF, "data", "c06_envelope.txt")
